@@ -199,7 +199,18 @@ def run(facts, tier, ctx):
     from . import lib_effect as E
     ra = RuleResult("RANGE/block-size-argument", "on every Ok path of a stream encoder the block_size argument was verified "
                     "to be >= 16 and <= 65535")
-    for e in encs:
+    # any other function that produces a Result<Stream, EncodeError> and sets the block-size bounds itself (a frame-less
+    # fast path for an empty source, seeded C17-9) writes its argument into STREAMINFO as well: same obligation
+    extra = []
+    for b_ in facts.body_list:
+        if b_.kind != "Fn" or b_ in encs:
+            continue
+        rp_ = result_parts(b_.raw.get("output"))
+        if rp_ is None or rp_[0] != STREAM or rp_[1] != "error::EncodeError":
+            continue
+        if any(is_setbs(t_) for _x, t_ in b_.calls()):
+            extra.append(b_)
+    for e in encs + extra:
         ectx = E.Ctx(facts)
         ectx.open_loops = True
         ectx.collect_asserts = True
